@@ -5,7 +5,7 @@ HERE=$(cd "$(dirname "$0")/.." && pwd)
 mkdir -p "$HERE/build" "$HERE/evidence"
 cd "$HERE/lean"
 TARGETS=""
-for d in pfxdriver spkidriver mgrdriver bgpdriver ipdriver rtrdriver lockdriver allocdriver constdriver; do
+for d in pfxdriver spkidriver mgrdriver bgpdriver ipdriver rtrdriver lockdriver allocdriver constdriver pduconvdriver; do
   root=$(awk -v n="$d" '$0 ~ "name = \""n"\"" {getline; gsub(/root = |"/,""); print}' lakefile.toml | tr . /)
   [ -f "$root.lean" ] && TARGETS="$TARGETS $d"
 done
